@@ -621,6 +621,10 @@ pub fn receiver_at(fx: &Fixture, pos: Option<u64>) -> Result<Box<dyn RCtx>, Stri
 /// exhaustion are skipped (the real counter is not exhausted there).
 pub fn embeddings(w: u8, thorough: bool) -> Vec<u64> {
     let span = 1u64 << w;
+    if w >= 5 {
+        // the large model is replayed at the bottom, across the 2^32 carry and top-aligned only
+        return vec![0, (1u64 << 32) - span / 2, 0u64.wrapping_sub(span)];
+    }
     let half = span / 2;
     let mut v = vec![0u64];
     let ks: Vec<u32> = if thorough { vec![8, 16, 24, 32, 40, 48, 56, 63] } else { vec![8, 32, 56] };
@@ -971,6 +975,9 @@ pub fn seq_starts() -> Vec<u64> {
 pub enum NonceCase {
     /// set the counter to `start` with the hook, seal 3 messages alternating the APIs
     At { suite: SuiteId, start: u64 },
+    /// seal the SAME plaintext and aad at every start position: all ciphertexts must be pairwise distinct
+    /// (a direct check of "no two messages share a nonce" that does not go through R1)
+    Distinct { suite: SuiteId },
     /// seal `count` messages from 0 through the public API only; `from` > 0 means the run is one
     /// chunk of a longer run and the hook is used to jump to its start after validating the hook
     Run { suite: SuiteId, from: u64, count: u64 },
@@ -998,6 +1005,7 @@ impl Part for NonceFormula {
             for start in seq_starts() {
                 v.push(NonceCase::At { suite, start });
             }
+            v.push(NonceCase::Distinct { suite });
         }
         // the long run only for one (KEM,KDF) pair per AEAD: the sequence logic is generic in them
         let mut seen = std::collections::HashSet::new();
@@ -1038,6 +1046,45 @@ impl Part for NonceFormula {
                     run_seal(&mut out, &fx, s.as_mut(), pos, api, &format!("start {:#x} seal #{}", start, i));
                     pos = pos.and_then(succ);
                 }
+            }
+            NonceCase::Distinct { suite } => {
+                out.outcome = format!("distinct/{}", suite.aead.name());
+                let fx = match Fixture::new(*suite, Mode::Base, cfg.seed) {
+                    Ok(f) => f,
+                    Err(e) => {
+                        out.fail(e);
+                        return out;
+                    }
+                };
+                let mut s = match fx.sender() {
+                    Ok(s) => s,
+                    Err(e) => {
+                        out.fail(e);
+                        return out;
+                    }
+                };
+                let mut seen: std::collections::HashMap<Vec<u8>, u64> = Default::default();
+                // every start position and its two successors, in ascending order
+                let mut positions: Vec<u64> = seq_starts().into_iter().flat_map(|p| [p, p.wrapping_add(1), p.wrapping_add(2)]).filter(|p| *p >= 3 || true).collect();
+                positions.sort();
+                positions.dedup();
+                for p in positions {
+                    s.set_seq(p);
+                    out.transitions += 1;
+                    match s.seal(b"same plaintext every time, 32 by", b"same aad") {
+                        Obs::Ok(ct) => {
+                            if let Some(q) = seen.insert(ct, p) {
+                                out.fail(format!("nonce reuse: the messages at sequence numbers {:#x} and {:#x} are sealed under the same nonce (identical ciphertexts for identical inputs)", q, p));
+                                break;
+                            }
+                        }
+                        o => {
+                            out.fail(format!("seal at {:#x}: {}", p, o.class()));
+                            break;
+                        }
+                    }
+                }
+                out.nontrivial = true;
             }
             NonceCase::Run { suite, from, count } => {
                 out.outcome = format!("run/{}", suite.aead.name());
